@@ -217,13 +217,18 @@ def _rel(t, T):
 
     def call(obj, k=1.0, **wkw):
         """the calculator with the task's density given in the task's way, scaled by k"""
-        if how == "density":
+        if how == "string-at" and all(at.number > 0 for at in g.atoms):
+            # the compound as text that carries a density of its own: the density= keyword of the calculator wins
+            from .formexec import _tab
+            return P.neutron_scattering("%s@%r" % (str(obj), t.get("carried", 3.3)), density=g.density * k,
+                                        table=(_tab(T) if T else None), **wkw)
+        if how in ("density", "string-at"):
             return P.neutron_scattering(obj, density=g.density * k, **wkw)
         if how == "natural":            # natural_density= on a formula without density
             return P.neutron_scattering(obj, natural_density=t["density"] * k, **wkw)
         # natural_density= on a Formula that carries some other density: the keyword wins
         return P.neutron_scattering(P.formula(obj, density=t.get("carried", 3.3)), natural_density=t["density"] * k, **wkw)
-    g0 = g if how == "density" else build(t["compound"], T)
+    g0 = g if how in ("density", "string-at") else build(t["compound"], T)
     a = call(g0, wavelength=lam)
     ev = {"ev": "rel", "id": t["id"], "rel": rel, "a": out7(a)}
     if rel == "density":
